@@ -43,6 +43,16 @@ var l0Table = []l0Entry{
 		Vars:    []string{"view"},
 		Spec:    func(v map[string]bool) bool { return v["view"] },
 		Meaning: "viewOf != 0"},
+	{Func: "tensor.(*AP).C", Equiv: true,
+		Atoms:   map[string]string{"$r.o.IsRowMajor()": "!col", "$r.o.IsColMajor()": "col", "$r.o.IsContiguous()": "contig", "$r.o.IsNotContiguous()": "!contig"},
+		Vars:    []string{"col", "contig"},
+		Spec:    func(v map[string]bool) bool { return !v["col"] && v["contig"] },
+		Meaning: "row-major and contiguous, nothing else (the native conversions and the BLAS gateways read it as 'storage is the row-major array')"},
+	{Func: "tensor.(*AP).F", Equiv: true,
+		Atoms:   map[string]string{"$r.o.IsRowMajor()": "!col", "$r.o.IsColMajor()": "col", "$r.o.IsContiguous()": "contig", "$r.o.IsNotContiguous()": "!contig"},
+		Vars:    []string{"col", "contig"},
+		Spec:    func(v map[string]bool) bool { return v["col"] && v["contig"] },
+		Meaning: "column-major and contiguous, nothing else (native conversions refuse on it)"},
 	{Func: "tensor.(DataOrder).IsColMajor", Equiv: true,
 		Atoms:   map[string]string{"(($r & ColMajor) == 0)": "!col", "(0 == ($r & ColMajor))": "!col", "((ColMajor & $r) == 0)": "!col", "(0 == (ColMajor & $r))": "!col"},
 		Vars:    []string{"col"},
